@@ -50,6 +50,9 @@ def gen_case(rng: random.Random, tier: str) -> dict:
             nd["params"][0] = {"name": "r_" + p0}
         script[nd["name"]] = ["pause"] if rng.random() < 0.75 else []
         nd["script"] = []
+        if rng.random() < 0.4:
+            # legal answers that happen to be falsy
+            nd["resp"] = [rng.choice(["zero", "false", "empty_str", "empty_list", None]) for _ in nd["outs"]]
     # external defaults must stay consistent: drop defaults of names an interrupt consumes
     int_consumed = set()
     for nd in g["nodes"]:
@@ -95,11 +98,14 @@ def _nested(doc: dict) -> tuple[dict, str]:
     i = ints[0]
     inner_nodes = [g["nodes"][i]]
     rest = [nd for j, nd in enumerate(g["nodes"]) if j != i]
-    inner = {"name": "H1", "nodes": inner_nodes, "order": [0]}
+    # the wrapper is mounted under a node name that differs from the inner graph's own name (as_node(name=...)):
+    # the pause path is made of NODE names
+    alt = doc["nest_seed"] % 2 == 0
+    inner = {"name": "H1g" if alt else "H1", "nodes": inner_nodes, "order": [0]}
     path = "H1"
     node = {"kind": "graph", "name": "H1", "graph": inner}
     if doc["nest"] == 2:
-        node = {"kind": "graph", "name": "H2", "graph": {"name": "H2", "nodes": [node], "order": [0]}}
+        node = {"kind": "graph", "name": "H2", "graph": {"name": "H2g" if alt else "H2", "nodes": [node], "order": [0]}}
         path = "H2/H1"
     nodes = rest + [node]
     return {"name": "top", "nodes": nodes, "order": list(range(len(nodes))), "ext": g["ext"]}, path
